@@ -43,7 +43,7 @@ class Region:
              'struct' (fields: name -> Region) | 'raw' (untyped heap bytes, `length` BV64 bytes)"""
     _n = [0]
     by_id = {}
-    __slots__ = ('id', 'name', 'kind', 'bits', 'ct', 'length', 'fields', 'heap', 'const', 'root', 'stack')
+    __slots__ = ('id', 'name', 'kind', 'bits', 'ct', 'length', 'fields', 'heap', 'const', 'root', 'stack', 'ptr_elems')
 
     def __init__(self, name, kind, bits=None, ct=None, length=None, fields=None, heap=False, const=False, root=None, stack=False):
         Region._n[0] += 1
@@ -58,6 +58,7 @@ class Region:
         self.const = const
         self.root = root or self
         self.stack = stack
+        self.ptr_elems = False
         Region.by_id[self.id] = self
 
     def __repr__(self):
